@@ -430,7 +430,7 @@ def directed_search(chk, raw, gen, functions, budget_s):
     driven = set(out[0].split(" ")[1:]) if out and out[0].startswith("keys") else set()
     todo = [r for r in rows if opkey(r["key"]) in driven]
     gens = wire_checks.family_gens()
-    rounds = 3 if quick else 10
+    rounds = 2 if quick else 10
     for k in range(rounds):
         if found() or time.time() - t0 > budget_s:
             break
@@ -509,8 +509,9 @@ def run_raw_sites(chk, raw, problems):
     functions = {fn for fn, _, _, _ in st["new"]} | {fn for fn, _, _ in st["gone"]}
     found = any(not nofail for _, _, nofail in chk.violations)
     if broken and not found and not NO_CORR:
-        found = directed_search(chk, raw, gen_cache["gen"], functions, 150 if chk.tier == "quick" else 900)
+        found = directed_search(chk, raw, gen_cache["gen"], functions, 80 if chk.tier == "quick" else 900)
     tail = ("" if found else "; theorem Tins.Wire.RawCoverage.rawSites_covered / guards_present (Props.C01.raw_sites_covered, raw_guards_present) no longer "
+            "checks (correspondence, sweep and search disabled by VERIF_C01_NO_CORR)" if NO_CORR else "; theorem Tins.Wire.RawCoverage.rawSites_covered / guards_present (Props.C01.raw_sites_covered, raw_guards_present) no longer "
             "checks and the directed search (entry sweep + wire generators of the classes that reach the function) found no failing input")
     for fn, kind, expr, key in st["new"]:
         chk.violation(f"raw-site coverage: new raw memory access without a model: {fn} {expr}  [{kind}]" + tail,
